@@ -60,6 +60,26 @@ def handleUsers (args : List String) : Option String :=
       let f := purebReduce dimB len (fun q => tabA.getD q []) (fun i => v.getD i 0)
       let N := dimA * dimB
       return gintListStr ((List.range N).flatMap fun x => (List.range N).map fun y => f x y)
+  | ["purebm", dimA, dimB, k, vals, v, op] => some <| Id.run do
+      -- PureBosonicExt(dimA, dimB, k): the table is the model's `bijTable k dimB` (index lists NOT taken from the object) with the
+      -- integer values `vals` substituted position by position; answer: reduced matrix | Re of the expectation loss
+      let some dimA := dimA.toNat? | return "bad-op"
+      let some dimB := dimB.toNat? | return "bad-op"
+      let some k := k.toNat? | return "bad-op"
+      if dimB < 2 || k < 1 then return "error:assert"
+      let some ws := (vals.splitOn "|").mapM (fun t => (parseGIntList? t)) | return "bad-op"
+      let some v := parseGIntArray? v | return "bad-op"
+      let some op := parseGIntArray? op | return "bad-op"
+      let L := dickeNumber k dimB
+      let N := dimA * dimB
+      if ws.length ≠ dimB * dimB || v.size ≠ dimA * L || op.size ≠ N * N then return "bad-op"
+      let tabs := (List.range (dimB * dimB)).map fun q => bijTable k dimB (q / dimB) (q % dimB)
+      if (tabs.zip ws).any (fun p => p.1.length ≠ p.2.length) then return "table-length-mismatch"
+      let tabA := ((tabs.zip ws).map fun p => tableWith p.1 p.2).toArray
+      let f := purebReduce dimB L (fun q => tabA.getD q []) (fun i => v.getD i 0)
+      let dm := gintListStr ((List.range N).flatMap fun x => (List.range N).map fun y => f x y)
+      let loss := expectLoss N (matOfList N op) f
+      return s!"{dm}|{loss.re}"
   | ["tensor", n, d] => some <| Id.run do
       let some n := n.toNat? | return "bad-op"
       let some d := d.toNat? | return "bad-op"
@@ -155,13 +175,9 @@ def handle (args : List String) : String :=
       let some d := d.toNat? | return "bad-op"
       if d < 2 || n < 1 then return "error:assert"
       let N := d ^ n
+      -- every non-zero squared amplitude of every basis vector, `index:value`
       return "|".intercalate ((klist d n).map fun a =>
-        let supp := (List.range N).filter fun x => dickeSq d n a x ≠ 0
-        let v : Rat := match supp with
-          | [] => 0
-          | x :: _ => dickeSq d n a x
-        let uniform := supp.all fun x => dickeSq d n a x = v
-        s!"{natListStr supp}={QI.ratStr v}={if uniform then 1 else 0}")
+        ";".intercalate (((List.range N).filter fun x => dickeSq d n a x ≠ 0).map fun x => s!"{x}:{QI.ratStr (dickeSq d n a x)}"))
   | ["bij", n, d] => Id.run do
       let some n := n.toNat? | return "bad-op"
       let some d := d.toNat? | return "bad-op"
